@@ -52,6 +52,16 @@ def parse_outcome(stdout, rc, timed_out=False):
     if timed_out:
         return {"status": "harness-error", "class": "timeout", "message": "wall-clock watchdog", "property": ""}
     line = stdout.strip().split("\n")[-1] if stdout.strip() else ""
+    if rc is not None and rc < 0 and not line.startswith("{"):
+        # killed by a signal before reporting: memory corruption / abort inside the system under test
+        import signal as _sig
+        try:
+            name = _sig.Signals(-rc).name
+        except Exception:
+            name = "SIG%d" % -rc
+        if name in ("SIGSEGV", "SIGBUS", "SIGABRT", "SIGILL", "SIGFPE"):
+            return {"status": "violation", "class": "crash-" + name, "native_property": "",
+                    "message": "the simulated process died with " + name, "property": "", "rc": rc}
     try:
         o = json.loads(line)
         o["rc"] = rc
